@@ -74,9 +74,11 @@ def worker(args):
     configs = list(conf.path_configs)
     if args.get("order") == "server_first":
         configs = list(reversed(configs))
-    # touch the configurations in the requested order
+    # touch the configurations in the requested order (with any valid Sid of the shortest type)
+    shortest = min((t for t in model.templates if vocab.usable(t)), key=lambda t: t.nseg)
+    touch = vocab.valid_string(shortest, random.Random(1))
     for c in configs:
-        Sid("hamlet").path(c)
+        Sid(touch).path(c)
     pms = {c: PathModel(c) for c in configs}
     pathmap = {}
     seen_paths = {c: {} for c in configs}
